@@ -147,7 +147,14 @@ pub fn threads(sink: &mut Sink, seed: u64, thorough: bool, grp0: u64) {
         }
         let shared = Arc::new(shared);
         // two different QR codes of the SAME version: a renderer must tell them apart (its output depends on the QR code, not on its size)
-        let shared_qr: Arc<Vec<QRCode>> = Arc::new((0..2).map(|k| qr_of(1 + pi % 5, seed + 17 * k as u64 + pi as u64)).collect());
+        let shared_qr: Arc<Vec<QRCode>> = Arc::new({
+            let a = qr_of(1 + pi % 5, seed + pi as u64);
+            // the second code must differ from the first (two seeds can give the same one-byte payload at version 1)
+            let mut k = 17u64;
+            let mut b = qr_of(1 + pi % 5, seed + k + pi as u64);
+            while qr_modules(&b) == qr_modules(&a) && k < 17 * 40 { if std::env::var("FQV_DEBUG").is_ok() { eprintln!("threads: program {pi}: second shared code equal to the first, drawing another"); } k += 17; b = qr_of(1 + pi % 5, seed + k + pi as u64); }
+            vec![a, b]
+        });
         // renderer programs with different numbers of shape layers and options; every thread uses all of them in its own order
         let render_progs: Arc<Vec<Vec<Call>>> = Arc::new(vec![
             vec![Call::Margin(pi % 5), Call::Shape(pi % 6)],
